@@ -249,7 +249,7 @@ PROBE_ALPHA = ['a', 'b', 'Z', '0', '-', ' ', ' ', '\t', "'", '"', '\\', 'Ã©', 'â
 @st.composite
 def probe_cases(draw):
     args = draw(st.lists(st.text(alphabet=PROBE_ALPHA, min_size=1, max_size=5), min_size=0, max_size=4))
-    form = draw(st.sampled_from(['string', 'string', 'list', 'popen', 'popen-string', 'bare']))
+    form = draw(st.sampled_from(['string', 'string', 'list', 'popen', 'popen-string', 'bare', 'run']))
     enc = draw(st.sampled_from([None, None, 'utf-8', 'latin-1']))
     if enc == 'latin-1':
         args = [a.replace('â‚¬', 'Ã©') for a in args]
@@ -337,17 +337,25 @@ def check_probe(case, col=None):
                     pk = dict(cwd=cwd, env=env, echo=case['echo'], ignore_sighup=case['sighup'], timeout=20, **kw)
                     if case['dims']:
                         pk['dimensions'] = tuple(case['dims'])
-                    if case['form'] == 'list':
+                    if case['form'] == 'run':
+                        # through run(): the same launch parameters travel as run()'s own arguments and **kwargs,
+                        # with either of its two ways of passing the timeout on
+                        line = ' '.join(_render_arg(a, s) for a, s in zip(full, case['styles'] + ['esc'] * 10))
+                        pk.pop('timeout')
+                        out = pexpect.run(line, timeout=(-1 if len(args) % 2 else 20), **pk)
+                        child = None
+                    elif case['form'] == 'list':
                         child = pexpect.spawn(PY, arglist, **pk)
                     else:
                         line = ' '.join(_render_arg(a, s) for a, s in zip(full, case['styles'] + ['esc'] * 10))
                         child = pexpect.spawn(line, **pk)
-                child.expect(pexpect.EOF)
-                out = child.before
-                if case['form'] not in ('popen', 'popen-string'):
-                    child.close()
-                else:
-                    child.wait()
+                if child is not None:
+                    child.expect(pexpect.EOF)
+                    out = child.before
+                    if case['form'] not in ('popen', 'popen-string'):
+                        child.close()
+                    else:
+                        child.wait()
             if isinstance(out, bytes):
                 out = out.decode('latin-1')
             m = re.search(r'<<<([0-9a-f]*)>>>', out)
